@@ -295,6 +295,11 @@ func c12Run(c *Ctx, ecs bool) {
 			case hadOpt && len(opts[0]) != 0:
 				c.Violation("option-relayed-to-client:"+sigBase, fmt.Sprintf("response OPT carries %d option(s) (first code %d) (round %d, upstream opt=%v)", len(opts[0]), opts[0][0].Code, round, upOpt), probe)
 				return
+			case hadOpt && c12OptTTL(x.Resp) != 0:
+				// the OPT record's TTL field holds the extended rcode, the EDNS version and the DO flag: the
+				// proxy's own OPT has none of them set, whatever the upstream's or an earlier client's had
+				c.Violation("opt-ttl-field:"+sigBase, fmt.Sprintf("response OPT has TTL field %#08x (extended rcode / version / flags), the proxy's own OPT has 0 (round %d, upstream opt=%v)", c12OptTTL(x.Resp), round, upOpt), probe)
+				return
 			case hadOpt && sizes[0] != 1200:
 				c.Violation("opt-udp-size:"+sigBase, fmt.Sprintf("response OPT advertises %d, the proxy's size is 1200", sizes[0]), probe)
 				return
@@ -327,6 +332,10 @@ func c12Run(c *Ctx, ecs bool) {
 			}
 			if nOpt != 1 {
 				c.Violation("upstream-opt-count:"+mode, fmt.Sprintf("upstream query carries %d OPT records, exactly one is required", nOpt), probe)
+				return
+			}
+			if t := c12OptTTL(ql.Raw); t != 0 {
+				c.Violation("upstream-opt-ttl-field:"+mode, fmt.Sprintf("upstream query OPT has TTL field %#08x (extended rcode / version / flags): flags of some client's or upstream's OPT travelled on", t), probe)
 				return
 			}
 			raw := c12RawECS(ql.Raw)
@@ -528,4 +537,19 @@ func c12Failing(c *Ctx, b *Bed, mode string) {
 			c.Ev.Count(mode+"_failing_upstream_responses_checked", 1)
 		}
 	})
+}
+
+
+// c12OptTTL returns the TTL field of the first OPT record of a message (0 if none).
+func c12OptTTL(wire []byte) uint32 {
+	m := new(dns.Msg)
+	if m.Unpack(wire) != nil {
+		return 0
+	}
+	for _, rr := range m.Extra {
+		if o, ok := rr.(*dns.OPT); ok {
+			return o.Hdr.Ttl
+		}
+	}
+	return 0
 }
